@@ -180,6 +180,17 @@ class SimPopen:
         self.returncode = None
         self.pid = None
         rec.launch_attempts.append(self)
+        # what the real Popen refuses before it asks the operating system for anything
+        for a in self.args:
+            if not isinstance(a, (str, bytes, os.PathLike)):
+                w.stats["fault:launch-bad-argument"] += 1
+                raise TypeError(f"expected str, bytes or os.PathLike object, not {type(a).__name__}")
+            if isinstance(a, str) and "\0" in a:
+                w.stats["fault:launch-bad-argument"] += 1
+                raise ValueError("embedded null byte")
+        if stdin is not None and getattr(stdin, "closed", False):
+            w.stats["fault:launch-bad-argument"] += 1
+            raise ValueError("I/O operation on closed file")
         launch = script.get("launch", "ok")
         if launch != "ok":
             w.stats[f"fault:launch-{launch}"] += 1
@@ -739,6 +750,9 @@ def _count_tree_fault(script):
     k = script.get("tree", "ok")
     if k != "ok":
         SimPopen.world.stats[f"fault:tree-{k}"] += 1
+    k1 = script.get("tree1")
+    if k1 not in (None, "ok", k):
+        SimPopen.world.stats[f"fault:first-tree-only-{k1}"] += 1
 
 
 def tool_muscle3(proc):
@@ -775,7 +789,8 @@ def tool_muscle3(proc):
             _count_tree_fault(script)
             for key, tr in (("-tree1", tree1), ("-tree2", tree)):
                 if key in opts:
-                    t = _tree_text(script.get("tree", "ok"), newick(tr, label=lambda i: recs[i][0]), rng)
+                    tfault = script.get("tree", "ok") if key == "-tree2" else script.get("tree1", script.get("tree", "ok"))
+                    t = _tree_text(tfault, newick(tr, label=lambda i: recs[i][0]), rng)
                     if t is not None:
                         with open(opts[key], "w") as f:
                             f.write(t + ("\n" if t else ""))
